@@ -144,6 +144,8 @@ def equality_table(lib, f, fields, disc=None, disc_values=(None,), other=None):
                 combos = itertools.product((0, 1), repeat=2 * len(fl))
             else:
                 combos = [tuple(0 for _ in range(2 * len(fl)))] + [tuple(1 if j == i else 0 for j in range(2 * len(fl))) for i in range(2 * len(fl))]
+            if not disc or db == dv:
+                combos = itertools.chain(combos, _compensating(fl, set(fl)))
             for combo in combos:
                 names = {}
                 for i, n in enumerate(fl):
@@ -159,6 +161,21 @@ def equality_table(lib, f, fields, disc=None, disc_values=(None,), other=None):
                     res = _P(hits[0][2]).const_value()
                 rows.append((dv, db, {n: (combo[2 * i], combo[2 * i + 1]) for i, n in enumerate(fl)}, res))
     return rows, ''
+
+
+def _compensating(fl, ok):
+    """Assignments beyond 0/1 in which two fields differ in a way that cancels in a derived quantity - swapped values, equal sums,
+    equal products - while every other field is 1 on both sides: a comparison of `std + dst` (or of `std * dst`) instead of the
+    two fields themselves agrees with a field-wise one on every 0/1 assignment and on none of these."""
+    idx = [i for i, n in enumerate(fl) if n in ok]
+    for i in idx:
+        for j in idx:
+            if i == j:
+                continue
+            for ai, aj, bi, bj in ((1, 2, 2, 1), (1, 3, 2, 2), (1, 4, 2, 2), (3, 5, 5, 3)):
+                combo = [1] * (2 * len(fl))
+                combo[2 * i], combo[2 * j], combo[2 * i + 1], combo[2 * j + 1] = ai, aj, bi, bj
+                yield tuple(combo)
 
 
 def equality_table_interp(lib, f, cls, fields, disc=None, disc_values=(None,), other=None):
@@ -218,6 +235,10 @@ def equality_table_interp(lib, f, cls, fields, disc=None, disc_values=(None,), o
                 combos = itertools.product((0, 1), repeat=2 * len(fl))
             else:
                 combos = [tuple(0 for _ in range(2 * len(fl)))] + [tuple(1 if j == i else 0 for j in range(2 * len(fl))) for i in range(2 * len(fl))]
+            if not disc or db == dv:
+                proto = cxx_object(lib, cls)
+                scalar = {n for n in fl if '*' not in ftype.get(n, '') and isinstance(proto.attrs.get(n), int) and n not in getattr(proto, 'ptrs', ())}
+                combos = itertools.chain(combos, _compensating(fl, scalar))
             for combo in combos:
                 oa = make({n: combo[2 * i] for i, n in enumerate(fl)}, dv)
                 ob_ = make({n: combo[2 * i + 1] for i, n in enumerate(fl)}, db)
@@ -419,6 +440,12 @@ SELFTEST = [
          find='      return a.mStdOffsetMinutes == b.mStdOffsetMinutes\n          && a.mDstOffsetMinutes == b.mDstOffsetMinutes;',
          replace='      return a.mStdOffsetMinutes == b.mStdOffsetMinutes;', rule='R3'),
     dict(id='equality-compares-a-with-a', file='src/ace_time/TimeZoneData.h', find='return (a.zoneId == b.zoneId);', replace='return (a.zoneId == a.zoneId);', rule='R3'),
+    dict(id='equality-of-manual-zones-by-total-offset', file='src/ace_time/TimeZone.h',
+         find='      return a.mStdOffsetMinutes == b.mStdOffsetMinutes\n          && a.mDstOffsetMinutes == b.mDstOffsetMinutes;',
+         replace='      return (a.mStdOffsetMinutes + a.mDstOffsetMinutes == b.mStdOffsetMinutes + b.mDstOffsetMinutes)\n          && ((a.mDstOffsetMinutes != 0) == (b.mDstOffsetMinutes != 0));', rule='R3', construct='kTypeManual'),
+    dict(id='localdate-equality-by-field-sum', file='src/ace_time/LocalDate.h',
+         find='  return a.mDay == b.mDay\n      && a.mMonth == b.mMonth\n      && a.mYearTiny == b.mYearTiny;',
+         replace='  return a.mDay + a.mMonth == b.mDay + b.mMonth\n      && a.mYearTiny == b.mYearTiny;', rule='R3'),
     dict(id='offsetdatetime-equality-drops-offset', file='src/ace_time/OffsetDateTime.h',
          find='  return a.mLocalDateTime == b.mLocalDateTime\n      && a.mTimeOffset == b.mTimeOffset;', replace='  return a.mLocalDateTime == b.mLocalDateTime;', rule='R3'),
     dict(id='manual-offset-std-only', file='src/ace_time/TimeZone.h', unique=False, nth=0,
